@@ -49,8 +49,10 @@ SIM_CHECKS = {
         ],
     },
     'C14': {
-        'profiles': [('clock-sync', 'plain')],
-        'runs': {'quick': 3000000, 'thorough': 150000000},
+        # the same seeded schedules are executed twice: with the host's 64-bit `unsigned long` (unwrapped counter)
+        # and with AceTime's `unsigned long` compiled as 32 bits (counter wraps at 2^32 as on the target)
+        'profiles': [('clock-sync', 'plain'), ('clock-sync', 'plain32')],
+        'runs': {'quick': 1500000, 'thorough': 75000000},
         'batch': {'quick': 15000, 'thorough': 250000},
         'cells': 'c14',
         'rule': ('Each evaluation is one seeded run of the real SystemClockLoop with a scripted reference clock '
@@ -62,9 +64,9 @@ SIM_CHECKS = {
                  'a later successful sync. distinct_nontrivial counts DISTINCT (model phase, event, back-off level, '
                  'configuration class) tuples reached.'),
         'assumptions': [
-            'the counter handed to loop() is the unwrapped 64-bit count; differences equal the 32-bit target\'s '
-            'modulo 2^32 for every interval the machine measures (< 49 days); a defect that needs a 32-bit unsigned '
-            'long cannot be observed on this host',
+            'two build variants run the same schedules: "plain" hands loop() the unwrapped 64-bit count; "plain32" compiles '
+            'the four clock headers with `long` read as `int`, so loop() does the target\'s 32-bit arithmetic and the '
+            'counter really wraps at 2^32 (boot values are drawn to put the wrap inside the run)',
             'lower bounds on request spacing use the smallest admissible back-off period, the liveness bound the largest',
             'a response that is ready in the same call in which the timeout elapses may be applied or dropped',
             'liveness is counted in loop() calls after the model deadline (2 allowed, the code needs 1)',
